@@ -147,7 +147,9 @@ structure Summary (F : Type) where
 def Summary.save (io : FloatIO F) (s : Summary F) : Str :=
   (match s.best with
    | none => ['0', '\n']
-   | some b => '1' :: '\n' :: IMep.save io b.solution ++ Fitness.save io b.fitness ++ io.fmt b.accuracy ++ ['\n']) ++
+   | some b =>
+     if b.solution.genes = [] then ['0', '\n']       -- `if (best.solution.empty()) out << "0\n";`
+     else '1' :: '\n' :: IMep.save io b.solution ++ Fitness.save io b.fitness ++ io.fmt b.accuracy ++ ['\n']) ++
   showInt s.elapsed ++ ' ' :: showNat s.mutations ++ ' ' :: showNat s.crossovers ++ ' ' ::
     showNat s.gen ++ ' ' :: showNat s.lastImp ++ ['\n']
 
